@@ -57,6 +57,9 @@ OPEN_STATEMENTS = [
     'occupied with S the increasing list of used modes; prune_unused_indices_sound separately) under the per-run '
     'exact-regime flag (every `tmp_operator +=` of every pass exact; counted as exact-regime(freeze):True/False); not '
     'proved: repeated frozen indices and runs whose flag is False',
+    'edit_hamiltonian_for_spin and remove_indices are proved on their own (edit_hamiltonian_for_spin_sound: matrix elements '
+    'kept on the sector of the edited qubit, for operators with I/Z there, in the exact regime of compress; '
+    'remove_indices_sound: for operators that do not act on the removed qubits); outside these hypotheses: correspondence only',
     'scbk_sector_sound is proved at the Model level: the reduction of symmetry_conserving_bravyi_kitaev '
     '(edit_hamiltonian_for_spin at the last and the middle qubit with the parities of N mod 4, remove_indices) has the '
     'matrix elements of the Bravyi-Kitaev-tree Hamiltonian between the basis states with the two removed qubits fixed '
